@@ -131,6 +131,17 @@ CHECKS = {
              'Outside: keys > 2 / values > 2 bytes, more than one altered byte, checksum collisions (F5).',
         technique='MIR symbolic execution of writer and reader over a byte-level symbolic file + z3; native byte-flip replay',
     ),
+    'C04': dict(
+        category='model_checking',
+        text='The MIR of Database::recover (active journal) and of recover_sealed_memtables (sealed journals) is executed over a symbolic recovered state: 2 keyspaces with symbolic ids and persisted seqnos, '
+             'a journal of <= 2 batches with symbolic seqnos, keyspace ids and value kinds. z3 decides on every successful path that the tree writes are exactly - in journal order, with unchanged key, value, kind and the batch seqno - '
+             'the records whose keyspace resolves and whose batch is not already covered by that keyspace\'s tables (persisted seqno >= batch seqno), that clears follow the same rule, that every batch was consumed, '
+             'and for sealed journals that a memtable is sealed iff data landed in it and the journal is re-registered with the highest applied seqno per keyspace. '
+             'Counterexamples are replayed natively: 24 reference-map programs with reopen cycles (all C01 battery programs, ingestion over journaled keys, ingestion after clear, deleted keyspaces, kv separation, unflushed sealed memtables).',
+        design_ref='DESIGN.md §5 C04',
+        note='Trusted: E8/E2 (tables report their highest seqno; the highest seqno of a key wins), journal reader by contract (bytes: C03/C15). Outside: lsm-tree table/version recovery, recover_keyspaces directory scan (stubbed), > 2 keyspaces / 2 batches.',
+        technique='MIR symbolic execution of both recovery loops over a symbolic journal/keyspace state + z3; native reopen replay against a reference map',
+    ),
     'C11': dict(
         category='model_checking',
         text='The MIR of Database::recover is executed over a symbolic recovered state: 2 keyspaces with symbolic ids and symbolic persisted/highest seqnos (meta keyspace included), '
